@@ -72,6 +72,7 @@ type witness struct {
 	Property string            `json:"property,omitempty"`
 	Pkg      string            `json:"pkg,omitempty"`
 	Kind     string            `json:"kind,omitempty"`
+	Repeat   int               `json:"repeat,omitempty"` // schedule witnesses: native runs until one fails
 }
 
 type nativeOutcome struct {
@@ -433,6 +434,10 @@ func cmdCheck(args []string) int {
 					continue
 				}
 				w.Expect, w.Label, w.Trace, w.Property, w.Pkg, w.Kind = v.Kind, v.Label, decs(v.Trace), prop, r.h.Pkg, r.h.Kind
+				if len(r.h.MapOrders) > 0 {
+					// the native runtime randomises map iteration: repeat until it shows
+					w.Repeat = 2000
+				}
 				vrefs = append(vrefs, vref{v, r.h, r.h.Pkg, len(perPkg[r.h.Pkg])})
 				perPkg[r.h.Pkg] = append(perPkg[r.h.Pkg], w)
 			}
